@@ -429,12 +429,75 @@ func (w *Worker) concretize(t *Term, signed bool, lo, hi int64, why string) int6
 		}
 		return int64(t.Uint64())
 	}
-	if hi-lo > int64(w.hr.Cfg.Concretize) {
+	st := w.st
+	forcedNow := st.decIdx < len(st.forced)
+	mk := func(v int64) *Term { return Eq(t, BVi(v, t.S.W)) }
+	if hi-lo <= 16 || forcedNow {
+		if hi-lo > 4096 {
+			unsupported("concretize %s: range [%d,%d] too large for %s", why, lo, hi, t)
+		}
+		conds := make([]*Term, 0, hi-lo+1)
+		for v := lo; v <= hi; v++ {
+			conds = append(conds, mk(v))
+		}
+		i := w.decideN(conds, why)
+		return lo + int64(i)
+	}
+	// large range: enumerate the feasible values through solver models (one query per
+	// feasible value) instead of one query per candidate
+	if hi-lo > 4096 {
 		unsupported("concretize %s: range [%d,%d] too large for %s", why, lo, hi, t)
+	}
+	ts := st.subst(t)
+	feasible := map[int64]bool{}
+	var block []*Term
+	inRange := TTrue
+	if signed {
+		inRange = And(BvCmp(OBvSLe, BVi(lo, t.S.W), ts), BvCmp(OBvSLe, ts, BVi(hi, t.S.W)))
+	} else {
+		inRange = And(BvCmp(OBvULe, BVi(lo, t.S.W), ts), BvCmp(OBvULe, ts, BVi(hi, t.S.W)))
+	}
+	exact := true
+	for {
+		if len(feasible) > w.hr.Cfg.Concretize {
+			unsupported("concretize %s: more than %d feasible values for %s", why, w.hr.Cfg.Concretize, t)
+		}
+		r, m := w.sol.CheckModel(st.pc, And(append([]*Term{inRange}, block...)...), w.allVars())
+		if r == "unsat" {
+			break
+		}
+		if r != "sat" {
+			exact = false
+			break
+		}
+		val := evalTerm(ts, m, map[int64]*Term{})
+		if !val.IsConst() {
+			exact = false
+			break
+		}
+		var v int64
+		if signed {
+			v = val.Int64()
+		} else {
+			v = int64(val.Uint64())
+		}
+		if v < lo || v > hi || feasible[v] {
+			exact = false
+			break
+		}
+		feasible[v] = true
+		block = append(block, Not(Eq(ts, BVi(v, t.S.W))))
 	}
 	conds := make([]*Term, 0, hi-lo+1)
 	for v := lo; v <= hi; v++ {
-		conds = append(conds, Eq(t, BVi(v, t.S.W)))
+		if exact && !feasible[v] {
+			conds = append(conds, TFalse)
+		} else {
+			conds = append(conds, mk(v))
+		}
+	}
+	if exact && len(feasible) == 0 {
+		panic(pathEnd{"INFEASIBLE", "no feasible value at " + why})
 	}
 	i := w.decideN(conds, why)
 	return lo + int64(i)
